@@ -163,6 +163,29 @@ pub fn generate(s: &mut Session, tier: &str, rng: &mut Rng) {
         ids.push(last);
         history(s, "edge", &ids, top);
     }
+    // an id accepted in the oldest block the window still covers, then small advances that stay inside the newest block
+    // (no block may be cleared by them), then the old id again: it is a duplicate.  All offsets of the old id inside
+    // its block, advances of 1..3 ids, high-water marks at every position of their block.
+    for k in 0..if tier == "thorough" { 1200 } else { 160 } {
+        let base = if k % 5 == 0 { 0 } else { rng.range(0, top - 40000) & !63 };
+        let x = base + rng.range(0, 63);
+        // a high-water mark at most one window above x, in the newest block that still covers x's block
+        let hi = (x + W - rng.range(0, 63)).min(top - 8);
+        let mut ids = vec![x, hi];
+        let mut cur = hi;
+        for _ in 0..1 + k % 3 {
+            // stay inside the block of `cur` where there is room
+            let step = if cur % 64 == 63 { 0 } else { 1 };
+            cur += step;
+            if step == 1 && cur <= x + W {
+                ids.push(cur);
+            }
+        }
+        ids.push(x);
+        ids.push(x + 1);
+        ids.push(x);
+        history(s, "old-block-then-small-advances", &ids, top);
+    }
     // the same edges at the very top of the 64-bit range (both production callers pass u64::MAX as the limit)
     for k in 0..if tier == "thorough" { 200 } else { 24 } {
         let last = top - 1 - (k % 4);
